@@ -22,7 +22,7 @@ claimed = {
  "C17": ("E2", "§5.17", "refWF (README tape format, strict NOP runs) asserted on every accepting path of unifiedMachine/parseMessage in both modes and on every Deserialize(Serialize(tape)) result",
           "bounds of P3/U1/Z1; " + TRUST),
  "C18": ("E2", "§5.18, §10.7", "appendFloat = transcription of encoding/json's float encoder on every bit pattern (format switch, exponent clean-up, non-finite => error: FP theory); appendFloatF (bit decomposition, precision, fmtF) = strconv.AppendFloat 'f' executed from the toolchain's SSA for every digit count/decimal point, digit generator opaque on both sides",
-          "NOT decided: that the repository's copy of the Ryu digit generator (ryuFtoaShortest and callees) equals strconv's — a symbolic comparison ran out of reach (128-bit products x data-dependent digit loops), see DESIGN §10.7; shortest-round-trip itself is inherited from the Go standard library (trusted); " + TRUST),
+          "the Ryu helper functions (computeBounds, mulByLog*, divmod1e9, mult128bitPow10 for every table entry, divisibleByPower5) = strconv's on arbitrary arguments (R1f); NOT decided: ryuFtoaShortest's admissibility/rounding logic and the digit loops ryuDigits/ryuDigits32 vs strconv's — a symbolic comparison ran out of reach (128-bit products x data-dependent loops), see DESIGN §10.7; shortest-round-trip itself is inherited from the Go standard library (trusted); " + TRUST),
  "C03": ("E2", "§5.3", "parseNumber (through addNumber) on fully symbolic buffers against the RFC 8259 number DFA and the int64/uint64/float+flag typing rule with exact 128-bit integer values; the read side (Int/Uint/Float/FloatFlags, As*) on every 64-bit payload",
           "buffers <= 10 (quick) / 24 (thorough) bytes fully symbolic, longer ones with a digit run in the middle; strconv.ParseInt/ParseUint/ParseFloat are contracts: correct rounding of ParseFloat is TRUSTED (Go standard library), the check covers which bytes are converted and how the result is typed and flagged; " + TRUST),
  "C04": ("E1", "§5.4", "the string decoder's machine code (_parse_string_validate_only, _parse_string) lifted from the freshly built test binary: one decoder iteration from an arbitrary cursor = REF-STR step (inductive over length/alignment), whole runs of 2 (quick) / 3 (thorough) iterations, copy = validate lengths, loads/stores inside the caller-provided extents; quote/backslash carry across 64-byte blocks (A1/A2, both kernel families)",
